@@ -292,6 +292,9 @@ def run_column2(name, values, ctx, only=None):
     rec = Rec(ctx, only)
     n = len(values)
     cells = column_cells(values, 'A')
+    # a column of ones: the judged column is also used as the SECOND range of
+    # a COUNTIFS whose first pair holds for every row
+    cells.update(column_cells([1] * n, 'B'))
     base = 'C15/%s/%s' % (name, colkey(values))
     batch = Batch(cells)
     crits = {'column-frac': FRAC_CRITERIA, 'column-digit': DIGIT_CRITERIA,
@@ -311,6 +314,10 @@ def run_column2(name, values, ctx, only=None):
             batch.add('%s/%s/crit=%s' % (base, fn, vkey(crit)),
                       form % (rng('A', n), lit(crit)), tags | {'fn:' + fn},
                       want, n >= 2)
+        batch.add('%s/COUNTIFS-2nd/crit=%s' % (base, vkey(crit)),
+                  '=COUNTIFS(%s,">0",%s,%s)' % (rng('B', n), rng('A', n),
+                                                lit(crit)),
+                  tags | {'fn:COUNTIFS', 'range:second'}, want, n >= 2)
     batch.run(rec, {'family': name, 'values': list(values)})
 
 
